@@ -220,3 +220,59 @@ def C09_fingerprint_binds_sym(p1, p2):
 ''')
 c.params(p1="obj:params._Params", p2="obj:params._Params;group=$p1.group").returns("none")
 c.lemma_tags = {"C09"}
+
+# ---------------------------------------------------------------------------------------------------------------
+# C15  round trips as lemmas over the codec contracts
+# ---------------------------------------------------------------------------------------------------------------
+c = REG.ghost_function("lemma.C15_number_roundtrip", "util", '''
+def C15_number_roundtrip(n, maxval, b):
+    assume(0 <= n and n <= maxval)
+    s = number_to_bytes(n, maxval)
+    assert len(s) == size_bytes(maxval), "fixed-width"
+    assert bytes_to_number(s) == n, "decode-encode"
+    assume(len(b) >= 1)
+    v = bytes_to_number(b)
+    t = number_to_bytes(v, spec.p256(len(b)) - 1)
+    assert t == b, "encode-decode"
+    return None
+''')
+c.params(n="int", maxval="int", b="bytes").returns("none")
+c.lemma_tags = {"C15"}
+
+c = REG.ghost_function("lemma.C15_integer_group_codecs", "groups", '''
+def C15_integer_group_codecs(g, i, e, bs):
+    assume(0 <= i and i < g.q)
+    s = g.scalar_to_bytes(i)
+    assert len(s) == g.scalar_size_bytes, "scalar-width"
+    assert g.bytes_to_scalar(s) == i, "scalar-decode-encode"
+    eb = e.to_bytes()
+    assert len(eb) == g.element_size_bytes, "element-width"
+    r = g.bytes_to_element(eb)
+    assert r._e == e._e, "element-decode-encode"
+    d = g.bytes_to_element(bs)
+    assert d.to_bytes() == bs, "element-encode-decode"
+    return None
+''')
+c.params(g="obj:groups.IntegerGroup", i="int", e="obj:groups._Element;_group=$g", bs="bytes").returns("none")
+c.may_raise("AssertionError", "ValueError")
+c.lemma_tags = {"C15"}
+
+c = REG.ghost_function("lemma.C15_ed25519_codecs", "ed25519_basic", '''
+def C15_ed25519_codecs(i, e, bs, e2):
+    assume(0 <= i and i < L)
+    s = scalar_to_bytes(i)
+    assert len(s) == 32, "scalar-width"
+    assert bytes_to_scalar(s) == i, "scalar-decode-encode"
+    eb = e.to_bytes()
+    assert len(eb) == 32, "element-width"
+    spec.ed_decodable_intro(spec.ed_view(e), eb)
+    r = bytes_to_element(eb)
+    assert spec.ed_view(r) == spec.ed_view(e), "element-decode-encode"
+    assert (e2.to_bytes() == eb) == (spec.ed_view(e2) == spec.ed_view(e)), "distinct-elements-distinct-encodings"
+    d = bytes_to_element(bs)
+    assert d.to_bytes() == bs, "element-encode-decode"
+    return None
+''')
+c.params(i="int", e="obj:ed25519_basic.Element", bs="bytes", e2="obj:ed25519_basic.Element").returns("none")
+c.may_raise("Exception")
+c.lemma_tags = {"C15"}
